@@ -67,6 +67,23 @@ def run(chk):
                     extra.append({"config": {"max": 1}, "term": {"dangling": dang},
                                   "calls": [{"op": "begin", "token": [97]}, {"op": op, "token": [97], "amount": amt}],
                                   "plan": {"exchanges": [okp0, okp0] + tail}})
+    # a terminal that is slow but answers (25 s, well inside the per-packet timeout) in one, or in each, exchange of the clean-up: the
+    # query, the reversal of what it reports, the end of day - and intermediate statuses before the end of day's completion
+    for op in ("commit", "cancel"):
+        for dang in ([], [77]):
+            n = 3 + (1 if dang else 0)           # exchanges of the closing call: reversal, query, (reversal of the dangling one,) end of day
+            for slow_at in list(range(n)) + ["all"]:
+                exch = []
+                for k in range(n):
+                    e = {"o": "pending"} if k == 1 else {"o": "ok", "status": {"amount": [1]}}
+                    if slow_at == "all" or slow_at == k:
+                        e = dict(e, delay_ms=25000)
+                        if k == n - 1:
+                            e = dict(e, inter=2, delays=[25000, 25000, 25000, 25000])
+                    exch.append(e)
+                extra.append({"config": {"max": 1}, "term": {"dangling": dang},
+                              "calls": [{"op": "begin", "token": [97]}, {"op": op, "token": [97], "amount": [1]}],
+                              "plan": {"exchanges": [okp0] + exch}})
     # histories in which an earlier call failed: the later call that leaves nothing open must still clean up
     okp = {"o": "ok", "status": {"amount": [1]}}
     for second in ("commit", "cancel"):
